@@ -93,14 +93,26 @@ def ValidationError():
 _clock = {'today': _real_datetime.date(2024, 5, 17)}
 
 
-class FrozenDate(_real_datetime.date):
+class _DateMeta(type):
+    """isinstance(x, shim.date) must keep accepting real dates created outside the library."""
+
+    def __instancecheck__(cls, inst):
+        return isinstance(inst, _real_datetime.date)
+
+
+class _DateTimeMeta(type):
+    def __instancecheck__(cls, inst):
+        return isinstance(inst, _real_datetime.datetime)
+
+
+class FrozenDate(_real_datetime.date, metaclass=_DateMeta):
     @classmethod
     def today(cls):
         t = _clock['today']
         return cls(t.year, t.month, t.day)
 
 
-class FrozenDateTime(_real_datetime.datetime):
+class FrozenDateTime(_real_datetime.datetime, metaclass=_DateTimeMeta):
     @classmethod
     def now(cls, tz=None):
         t = _clock['today']
@@ -381,6 +393,7 @@ def drive(prop, strategy, n, seed_parts, res, shrink_skip=(), shrink=True, max_s
     """
     from hypothesis import HealthCheck, Phase, given, seed, settings
     sd = subseed(*seed_parts)
+    before = set(res.viol)
     common = dict(database=None, deadline=None, derandomize=False, report_multiple_bugs=False,
                   suppress_health_check=list(HealthCheck))
 
@@ -399,7 +412,7 @@ def drive(prop, strategy, n, seed_parts, res, shrink_skip=(), shrink=True, max_s
         raise
     if not shrink:
         return
-    todo = [b for b in res.viol if b not in shrink_skip and not res.viol[b].get('shrunk')]
+    todo = [b for b in res.viol if b not in shrink_skip and b not in before and not res.viol[b].get('shrunk')]
     for bucket in todo[:max_shrink_buckets]:
         last = {}
 
